@@ -68,7 +68,7 @@ InnerAt(p) == \/ Len(p) = 1 /\ (IsKey(p[1], "first") \/ IsKey(p[1], "subItem"))
               \/ Len(p) = 2 /\ IsKey(p[1], "items") /\ p[2].k = "idx"
               \/ Len(p) = 2 /\ IsKey(p[1], "extras") /\ p[2].k = "key"       \* the map-typed field of the extended family
 Violated(p, v) ==
-  \/ Len(p) = 1 /\ IsKey(p[1], "tag") /\ BadTag(v)
+  \/ Len(p) = 1 /\ (IsKey(p[1], "tag") \/ IsKey(p[1], "TAG2") \/ IsKey(p[1], "a-bc")) /\ BadTag(v)   \* (TAG2, a-bc: the extended family)
   \/ Len(p) >= 2 /\ InnerAt(SubSeq(p, 1, Len(p) - 1))
      /\ ((IsKey(p[Len(p)], "name") /\ BadName(v)) \/ (IsKey(p[Len(p)], "maxCount") /\ BadCount(v)))
 RECURSIVE Display(_, _)
